@@ -111,14 +111,22 @@ def load(R):
 
     R.contract(SB + "get_mementos", prop="C06", types={"self": MC, "fns": TList(FWH)}, returns=TList(TObj("Memento")),
                requires=["INV(self)"],
-               ensures=["INV(self)", "UNCHANGED(self)", "len(result) == len(fns)",
+               ensures=["INV(self)", "CONTENT_SAME(self)", "len(result) == len(fns)",
                         "forall(int, lambda j: implies(0 <= j and j < len(fns), same(result[j], "
-                        "self.cache[FKEY(fns[j].fn_reference, fns[j].arg_hash)].memento if FKEY(fns[j].fn_reference, fns[j].arg_hash) in self.cache else None)))"],
-               loops={1: ["len(result) == loop_i",
+                        "self.cache[FKEY(fns[j].fn_reference, fns[j].arg_hash)].memento if FKEY(fns[j].fn_reference, fns[j].arg_hash) in self.cache else None)))",
+                        # from the property ("least recently written or READ"): serving a memento from the cache is a use -- the last key that was hit is the most recent
+                        # entry afterwards (every hit is refreshed in turn; the clause names the last one), and nothing moves when nothing was hit
+                        "implies(len(fns) > 0 and FKEY(fns[len(fns) - 1].fn_reference, fns[len(fns) - 1].arg_hash) in self.cache, "
+                        "MOST_RECENT(self, FKEY(fns[len(fns) - 1].fn_reference, fns[len(fns) - 1].arg_hash)))",
+                        "implies(forall(int, lambda j: implies(0 <= j and j < len(fns), FKEY(fns[j].fn_reference, fns[j].arg_hash) not in self.cache)), UNCHANGED(self))"],
+               loops={1: ["len(result) == loop_i", "INV(self)", "CONTENT_SAME(self)",
                           "forall(int, lambda j: implies(0 <= j and j < loop_i, same(result[j], "
-                          "self.cache[FKEY(fns[j].fn_reference, fns[j].arg_hash)].memento if FKEY(fns[j].fn_reference, fns[j].arg_hash) in self.cache else None)))"]},
+                          "self.cache[FKEY(fns[j].fn_reference, fns[j].arg_hash)].memento if FKEY(fns[j].fn_reference, fns[j].arg_hash) in self.cache else None)))",
+                          "implies(loop_i > 0 and FKEY(fns[loop_i - 1].fn_reference, fns[loop_i - 1].arg_hash) in self.cache, "
+                          "MOST_RECENT(self, FKEY(fns[loop_i - 1].fn_reference, fns[loop_i - 1].arg_hash)))",
+                          "implies(forall(int, lambda j: implies(0 <= j and j < loop_i, FKEY(fns[j].fn_reference, fns[j].arg_hash) not in self.cache)), UNCHANGED(self))"]},
                labels={"local_types": {"result": TList(TObj("Memento"))}},
-               modifies=[])
+               modifies=["self.lru_deque"])
 
     R.contract(SB + "read_result", prop="C06", types={"self": MC, "memento": M}, returns=TObj(),
                requires=["INV(self)"],
